@@ -12,7 +12,8 @@ THOROUGH_BUDGET_S = 1800
 LEVEL_RULE = {
     "C09": "one case = one seeded trace (input spec + parse / generate_mesh / Frame / reduce_amount steps + "
            "scheduled faults: gc between calls, gc at a seeded line event inside a forsys call, retained and late-released "
-           "references to edges/cells) executed against the real forsys code; I1-I5 are evaluated on every live mesh after "
+           "references to edges/cells; every fourth seed is a cell of the systematic ne x replace_short_edges x reference-holder grid) "
+           "executed against the real forsys code; I1-I5 are evaluated on every live mesh after "
            "every step, after every release and at quiescence.  distinct = distinct trace digests (SHA-256 of the trace); "
            "non-trivial = executed >= 2 successful operations and had the C09 oracle evaluated at least once on a mesh.",
     "C11": "one case = one seeded trace as for C09 with ne in 1..12 and repeated identical generate_mesh calls; every "
@@ -20,7 +21,8 @@ LEVEL_RULE = {
            "repeated calls are compared (G5), crashes on the merge-free sub-domain counted (G6).  distinct = distinct trace "
            "digests; non-trivial = >= 2 successful operations and >= 1 generate_mesh step judged by the C11 oracle.",
     "C10": "one case = one seeded history (<= 12 calls over 1-3 sessions, 1-3 caller threads, frames in any order, any mix of "
-           "methods / b_matrix modes / circle fits / angle limits, scheduled gc) executed against real ForSys objects; after "
+           "methods / b_matrix modes / circle fits / angle limits, scheduled gc; every fourth seed is a cell of the systematic "
+           "option-pair product) executed against real ForSys objects, each run in its own forked process; after "
            "every call every frame of every session is compared with a fresh object taken once through the reference "
            "model's registers.  distinct = distinct trace digests; non-trivial = >= 2 successful calls and >= 1 comparison "
            "against the fresh-object reference.",
